@@ -130,3 +130,485 @@ Proof.
   unfold step. intro H. grd H E. boolp. inversion H.
   repeat split; auto. apply orb_true_iff. assumption.
 Qed.
+
+(* ------------------------------------------------------------------ release, complete_ok, complete_fail *)
+
+Lemma release_spec g f n m :
+  (f m <> Parked /\ release g f n m = f m) \/
+  (f m = Parked /\ mem_nat n (deps g m) = true /\ deps_ok g f m = true /\ release g f n m = Ready) \/
+  (f m = Parked /\ (mem_nat n (deps g m) = false \/ deps_ok g f m = false) /\ release g f n m = Parked).
+Proof.
+  unfold release. destruct (f m) eqn:E; try (left; split; [discriminate|reflexivity]).
+  right. destruct (mem_nat n (deps g m)) eqn:E1; destruct (deps_ok g f m) eqn:E2; simpl; auto.
+Qed.
+
+Lemma deps_ok_spec g f m : deps_ok g f m = true <-> forall d, In d (deps g m) -> f d = Ok.
+Proof.
+  unfold deps_ok. rewrite forallb_forall. split; intros H d Hd; specialize (H d Hd).
+  - destruct (f d); simpl in H; try discriminate H. reflexivity.
+  - rewrite H. reflexivity.
+Qed.
+
+Lemma deps_ok_false g f m : deps_ok g f m = false -> exists d, In d (deps g m) /\ f d <> Ok.
+Proof.
+  unfold deps_ok. induction (deps g m) as [|d l IH]; simpl; intro H; [discriminate H|].
+  apply andb_false_iff in H. destruct H as [H|H].
+  - exists d. split; [left; reflexivity|]. intro E. rewrite E in H. discriminate H.
+  - destruct (IH H) as [d' [Hd' Hn]]. exists d'. split; [right; exact Hd'|exact Hn].
+Qed.
+
+Lemma release_ok g f n m : f m = Ok -> release g f n m = Ok.
+Proof.
+  intro H. destruct (release_spec g f n m) as [[_ E]|[[E _]|[E _]]]; congruence.
+Qed.
+
+Lemma release_not_ok g f n m : f m <> Ok -> release g f n m <> Ok.
+Proof.
+  intro H. destruct (release_spec g f n m) as [[_ E]|[[_ [_ [_ E]]]|[_ [_ E]]]]; rewrite E; congruence.
+Qed.
+
+(* what FinishOk does to the statuses *)
+Lemma complete_ok_cases g s n m : st s n = Running ->
+  st (complete_ok g s n) m = st s m \/
+  (m = n /\ st (complete_ok g s n) m = Ok) \/
+  (st s m = Parked /\ st (complete_ok g s n) m = Ready /\ fft s = false /\
+   forall d, In d (deps g m) -> st (complete_ok g s n) d = Ok).
+Proof.
+  intro HR. proj. destruct (fft s) eqn:EF.
+  - destruct (Nat.eq_dec m n) as [E|E].
+    + subst. right. left. split; [reflexivity|apply upd_same].
+    + left. apply upd_other. exact E.
+  - destruct (Nat.eq_dec m n) as [E|E].
+    + subst. right. left. split; [reflexivity|]. apply release_ok. apply upd_same.
+    + destruct (release_spec g (upd (st s) n Ok) n m) as [[_ R]|[[P [_ [D R]]]|[P [_ R]]]].
+      * left. rewrite R. apply upd_other. exact E.
+      * right. right. rewrite upd_other in P by exact E. repeat split; auto.
+        intros d Hd. apply release_ok. rewrite deps_ok_spec in D. apply D. exact Hd.
+      * left. rewrite R. rewrite upd_other in P by exact E. symmetry. exact P.
+Qed.
+
+Lemma complete_ok_n g s n : st (complete_ok g s n) n = Ok.
+Proof.
+  proj. destruct (fft s); [apply upd_same|apply release_ok; apply upd_same].
+Qed.
+
+Lemma complete_ok_parked g s n m : fft s = false ->
+  st (complete_ok g s n) m = Parked ->
+  st s m = Parked /\ m <> n /\
+  (~ In n (deps g m) \/ exists d, In d (deps g m) /\ d <> n /\ st s d <> Ok).
+Proof.
+  intros EF HP. proj. rewrite EF in HP.
+  destruct (release_spec g (upd (st s) n Ok) n m) as [[NP R]|[[_ [_ [_ R]]]|[P [C _]]]].
+  - rewrite R in HP. contradiction.
+  - rewrite R in HP. discriminate HP.
+  - assert (Hmn : m <> n). { intro E. subst. rewrite upd_same in P. discriminate P. }
+    rewrite upd_other in P by exact Hmn. split; [exact P|]. split; [exact Hmn|].
+    destruct C as [C|C].
+    + left. intro HI. apply mem_nat_In in HI. rewrite HI in C. discriminate C.
+    + right. destruct (deps_ok_false _ _ _ C) as [d [Hd Hn]]. exists d. split; [exact Hd|].
+      assert (Hdn : d <> n). { intro E. subst. rewrite upd_same in Hn. apply Hn. reflexivity. }
+      split; [exact Hdn|]. rewrite upd_other in Hn by exact Hdn. exact Hn.
+Qed.
+
+Lemma complete_fail_spec g c s n :
+  st (complete_fail g c s n) = upd (st s) n Failed /\
+  cmd (complete_fail g c s n) = cmd s /\
+  ctxc (complete_fail g c s n) = ctxc s /\
+  dead (complete_fail g c s n) = dead s /\
+  ret (complete_fail g c s n) = ret s /\
+  race (complete_fail g c s n) = (race s || ret s) /\
+  ((fft s = true /\ fft (complete_fail g c s n) = true /\ cp (complete_fail g c s n) = cp s) \/
+   (fft s = false /\ ff c = true /\ fft (complete_fail g c s n) = true /\
+    cp (complete_fail g c s n) = (fun _ => true)) \/
+   (fft s = false /\ ff c = false /\ fft (complete_fail g c s n) = false /\
+    cp (complete_fail g c s n) = (fun m => cp s m || mem_nat m (desc g n)))).
+Proof.
+  unfold complete_fail. destruct (fft s) eqn:EF; [|destruct (ff c) eqn:EC]; cbn [st cp cmd fft ctxc dead ret race];
+    repeat split; auto.
+  - right. left. auto.
+  - right. right. auto.
+Qed.
+
+(* ------------------------------------------------------------------ reach and desc *)
+
+Lemma deps_beyond g m : size g <= m -> deps g m = [].
+Proof. intro H. unfold deps. apply nth_overflow. exact H. Qed.
+
+Lemma reach_lt_size g a m : reach g a m -> m < size g.
+Proof.
+  intro H. destruct (Nat.lt_ge_cases m (size g)) as [L|L]; [exact L|].
+  apply deps_beyond in L. destruct H as [a n HI|a b n _ HI]; rewrite L in HI; destruct HI.
+Qed.
+
+Lemma reach_topo_lt g a m : topo g -> reach g a m -> a < m.
+Proof.
+  intros HT H. induction H as [a n HI|a b n _ IH HI].
+  - apply HT. exact HI.
+  - apply HT in HI. lia.
+Qed.
+
+Lemma reach_app g a b n : reach g a b -> reach g b n -> reach g a n.
+Proof.
+  intros Hab Hbn. induction Hbn as [b n HI|b b' n _ IH HI].
+  - eapply reach_trans; eassumption.
+  - eapply reach_trans; [apply IH; exact Hab|exact HI].
+Qed.
+
+Lemma desc_upto_sound g a k m : In m (desc_upto g a k) -> m < k /\ reach g a m.
+Proof.
+  revert m. induction k as [|k IH]; simpl; intros m H; [destruct H|].
+  destruct (existsb _ (deps g k)) eqn:E.
+  - destruct H as [H|H].
+    + subst m. split; [lia|].
+      apply existsb_exists in E. destruct E as [d [Hd E]].
+      apply orb_true_iff in E. destruct E as [E|E].
+      * apply Nat.eqb_eq in E. subst d. apply reach_step. exact Hd.
+      * apply mem_nat_In in E. apply IH in E. eapply reach_trans; [apply E|exact Hd].
+    + apply IH in H. split; [lia|apply H].
+  - apply IH in H. split; [lia|apply H].
+Qed.
+
+Lemma desc_upto_complete g a k m : topo g -> m < k -> reach g a m -> In m (desc_upto g a k).
+Proof.
+  intros HT. revert m. induction k as [|k IH]; intros m Hm HR; [lia|]. simpl.
+  assert (Hlt : m < k \/ m = k) by lia. destruct Hlt as [Hlt|Heq].
+  - specialize (IH m Hlt HR). destruct (existsb _ (deps g k)); [right|]; exact IH.
+  - subst m.
+    assert (E : existsb (fun d => Nat.eqb d a || mem_nat d (desc_upto g a k)) (deps g k) = true).
+    { apply existsb_exists. inversion HR as [a' n' HI|a' b n' Hab HI]; subst.
+      - exists a. split; [exact HI|]. rewrite Nat.eqb_refl. reflexivity.
+      - exists b. split; [exact HI|]. apply orb_true_iff. right. apply mem_nat_In.
+        apply IH; [apply HT in HI; exact HI|exact Hab]. }
+    rewrite E. left. reflexivity.
+Qed.
+
+Lemma desc_spec g a m : topo g -> (mem_nat m (desc g a) = true <-> reach g a m).
+Proof.
+  intro HT. rewrite mem_nat_In. unfold desc. split.
+  - intro H. apply desc_upto_sound in H. apply H.
+  - intro H. apply desc_upto_complete; [exact HT|eapply reach_lt_size; exact H|exact H].
+Qed.
+
+Lemma desc_sound g a m : mem_nat m (desc g a) = true -> reach g a m.
+Proof. rewrite mem_nat_In. unfold desc. intro H. apply desc_upto_sound in H. apply H. Qed.
+
+(* ------------------------------------------------------------------ the invariant *)
+
+Definition active (x : status) : Prop :=
+  x = Ready \/ x = Queued \/ x = Running \/ x = Ok \/ x = Failed \/ x = Aborted.
+
+Record Inv (g : graph) (c : config) (s : state) : Prop := {
+  I_deps  : forall n d, active (st s n) -> In d (deps g n) -> st s d = Ok;
+  I_eager : fft s = false -> forall n, st s n = Parked ->
+            exists d, In d (deps g n) /\ st s d <> Ok;
+  I_fail  : forall a n, st s a = Failed -> reach g a n -> cp s n = true;
+  I_skip  : forall n, st s n = Skipped -> cp s n = true;
+  I_cp    : forall n, cp s n = true ->
+            (exists a, st s a = Failed /\ reach g a n) \/ fft s = true \/ ctxc s = true;
+  I_abort : forall n, st s n = Aborted -> fft s = true \/ ctxc s = true;
+  I_fft   : fft s = true -> ff c = true /\ forall n, cp s n = true;
+  I_ret   : ret s = true ->
+            (forall n, n < size g -> is_final (st s n) = true) \/
+            ((fft s = true \/ ctxc s = true) /\ forall n, cp s n = true);
+  I_dead  : dead s > 0 -> closed s = true;
+  I_race  : race s = true -> ret s = true /\ (fft s = true \/ ctxc s = true)
+}.
+
+Lemma inv_init g c : Inv g c (init g).
+Proof.
+  constructor; unfold init; cbn [st cp cmd fft ctxc dead ret race].
+  - intros n d HA HI. destruct (deps g n) eqn:E; [destruct HI|].
+    unfold active in HA. repeat (destruct HA as [HA|HA]; try discriminate HA).
+  - intros _ n HP. destruct (deps g n) as [|d l] eqn:E; [discriminate HP|].
+    exists d. split; [left; reflexivity|]. destruct (deps g d); discriminate.
+  - intros a n H. destruct (deps g a); discriminate H.
+  - intros n H. destruct (deps g n); discriminate H.
+  - intros n H. discriminate H.
+  - intros n H. destruct (deps g n); discriminate H.
+  - intro H. discriminate H.
+  - intro H. discriminate H.
+  - intro H. lia.
+  - intro H. discriminate H.
+Qed.
+
+(* a status change at one node, nothing else *)
+Lemma inv_point g c s n x :
+  Inv g c s ->
+  st s n <> Ok -> st s n <> Failed ->
+  x <> Parked -> x <> Ok -> x <> Failed ->
+  (active x -> active (st s n)) ->
+  (is_final (st s n) = true -> is_final x = true) ->
+  (x = Skipped -> cp s n = true) ->
+  (x = Aborted -> fft s = true \/ ctxc s = true) ->
+  Inv g c (set_st s (upd (st s) n x)).
+Proof.
+  intros HI Ho1 Ho2 Hx1 Hx2 Hx3 Hact Hfin Hskip Hab.
+  destruct HI as [Jd Je Jf Js Jc Ja Jt Jr Jdd Jrace].
+  constructor; proj.
+  - intros m d HA Hd.
+    assert (Hsd : st s d = Ok).
+    { destruct (Nat.eq_dec m n) as [E|E].
+      - subst m. rewrite upd_same in HA. apply (Jd n d); [apply Hact; exact HA|exact Hd].
+      - rewrite upd_other in HA by exact E. apply (Jd m d); assumption. }
+    assert (Hdn : d <> n) by (intro E; subst d; contradiction).
+    rewrite upd_other by exact Hdn. exact Hsd.
+  - intros EF m HP.
+    assert (Hmn : m <> n) by (intro E; subst m; rewrite upd_same in HP; contradiction).
+    rewrite upd_other in HP by exact Hmn.
+    destruct (Je EF m HP) as [d [Hd Hn]]. exists d. split; [exact Hd|].
+    destruct (Nat.eq_dec d n) as [E|E].
+    + subst d. rewrite upd_same. exact Hx2.
+    + rewrite upd_other by exact E. exact Hn.
+  - intros a m HF HR.
+    assert (Han : a <> n) by (intro E; subst a; rewrite upd_same in HF; contradiction).
+    rewrite upd_other in HF by exact Han. eapply Jf; eassumption.
+  - intros m HS. destruct (Nat.eq_dec m n) as [E|E].
+    + subst m. rewrite upd_same in HS. apply Hskip. exact HS.
+    + rewrite upd_other in HS by exact E. apply Js. exact HS.
+  - intros m HC. destruct (Jc m HC) as [[a [HF HR]]|H]; [|right; exact H].
+    left. exists a. split; [|exact HR].
+    assert (Han : a <> n) by (intro E; subst a; contradiction).
+    rewrite upd_other by exact Han. exact HF.
+  - intros m HA. destruct (Nat.eq_dec m n) as [E|E].
+    + subst m. rewrite upd_same in HA. apply Hab. exact HA.
+    + rewrite upd_other in HA by exact E. eapply Ja. exact HA.
+  - exact Jt.
+  - intro HR. destruct (Jr HR) as [H|H]; [left|right; exact H].
+    intros m Hm. destruct (Nat.eq_dec m n) as [E|E].
+    + subst m. rewrite upd_same. apply Hfin. apply H. exact Hm.
+    + rewrite upd_other by exact E. apply H. exact Hm.
+  - exact Jdd.
+  - exact Jrace.
+Qed.
+
+Lemma complete_fail_facts g c s n : topo g -> Inv g c s ->
+  let s' := complete_fail g c s n in
+  st s' = upd (st s) n Failed /\ ctxc s' = ctxc s /\ dead s' = dead s /\ ret s' = ret s /\
+  race s' = (race s || ret s) /\
+  (fft s = true -> fft s' = true) /\
+  (forall m, cp s m = true -> cp s' m = true) /\
+  (fft s' = true -> ff c = true /\ forall m, cp s' m = true) /\
+  (forall m, reach g n m -> cp s' m = true) /\
+  (forall m, cp s' m = true -> cp s m = true \/ reach g n m \/ fft s' = true).
+Proof.
+  intros HT HI s'. subst s'.
+  destruct (complete_fail_spec g c s n) as [E1 [_ [E3 [E4 [E5 [E6 Hc]]]]]].
+  repeat (split; [assumption|]).
+  destruct Hc as [[F [F' C]]|[[F [FC [F' C]]]|[F [FC [F' C]]]]]; rewrite F', C.
+  - destruct (I_fft _ _ _ HI F) as [A B]. repeat split; auto.
+  - repeat split; auto.
+  - repeat split.
+    + intro H. rewrite F in H. discriminate H.
+    + intros m H. rewrite H. reflexivity.
+    + discriminate H.
+    + discriminate H.
+    + intros m H. apply orb_true_iff. right. apply desc_spec; assumption.
+    + intros m H. apply orb_true_iff in H. destruct H as [H|H]; [left; exact H|].
+      right. left. apply desc_sound. exact H.
+Qed.
+
+Lemma inv_complete_fail g c s n : topo g -> Inv g c s -> n < size g ->
+  (st s n = Running \/ st s n = Queued) -> Inv g c (complete_fail g c s n).
+Proof.
+  intros HT HI Hn Hold.
+  destruct (complete_fail_facts g c s n HT HI) as [E1 [E3 [E4 [E5 [E6 [M1 [M2 [M3 [M4 M5]]]]]]]]].
+  assert (Hact : active (st s n)).
+  { unfold active. destruct Hold as [H|H]; rewrite H; auto. }
+  assert (Hnf : is_final (st s n) = false) by (destruct Hold as [H|H]; rewrite H; reflexivity).
+  assert (Hno : st s n <> Ok) by (destruct Hold as [H|H]; rewrite H; discriminate).
+  assert (Hnfl : st s n <> Failed) by (destruct Hold as [H|H]; rewrite H; discriminate).
+  assert (Hnp : st s n <> Parked) by (destruct Hold as [H|H]; rewrite H; discriminate).
+  assert (Hns : st s n <> Skipped) by (destruct Hold as [H|H]; rewrite H; discriminate).
+  assert (Hna : st s n <> Aborted) by (destruct Hold as [H|H]; rewrite H; discriminate).
+  destruct HI as [Jd Je Jf Js Jc Ja Jt Jr Jdd Jrace].
+  constructor; rewrite ?E1, ?E3, ?E4, ?E5, ?E6.
+  - intros m d HA Hd.
+    assert (Hsd : st s d = Ok).
+    { destruct (Nat.eq_dec m n) as [E|E].
+      - subst m. apply (Jd n d); assumption.
+      - rewrite upd_other in HA by exact E. apply (Jd m d); assumption. }
+    assert (Hdn : d <> n) by (intro E; subst d; contradiction).
+    rewrite upd_other by exact Hdn. exact Hsd.
+  - intros EF m HP.
+    assert (EF0 : fft s = false).
+    { destruct (fft s) eqn:E; [|reflexivity]. rewrite (M1 eq_refl) in EF. discriminate EF. }
+    assert (Hmn : m <> n) by (intro E; subst m; rewrite upd_same in HP; discriminate HP).
+    rewrite upd_other in HP by exact Hmn.
+    destruct (Je EF0 m HP) as [d [Hd Hnd]]. exists d. split; [exact Hd|].
+    destruct (Nat.eq_dec d n) as [E|E].
+    + subst d. rewrite upd_same. discriminate.
+    + rewrite upd_other by exact E. exact Hnd.
+  - intros a m HF HR. destruct (Nat.eq_dec a n) as [E|E].
+    + subst a. apply M4. exact HR.
+    + rewrite upd_other in HF by exact E. apply M2. eapply Jf; eassumption.
+  - intros m HS.
+    assert (Hmn : m <> n) by (intro E; subst m; rewrite upd_same in HS; discriminate HS).
+    rewrite upd_other in HS by exact Hmn. apply M2. apply Js. exact HS.
+  - intros m HC. destruct (M5 m HC) as [H|[H|H]].
+    + destruct (Jc m H) as [[a [HF HR]]|[H1|H1]].
+      * left. exists a. split; [|exact HR].
+        assert (Han : a <> n) by (intro E; subst a; contradiction).
+        rewrite upd_other by exact Han. exact HF.
+      * right. left. apply M1. exact H1.
+      * right. right. exact H1.
+    + left. exists n. split; [apply upd_same|exact H].
+    + right. left. exact H.
+  - intros m HA.
+    assert (Hmn : m <> n) by (intro E; subst m; rewrite upd_same in HA; discriminate HA).
+    rewrite upd_other in HA by exact Hmn.
+    destruct (Ja m HA) as [H|H]; [left; apply M1; exact H|right; exact H].
+  - exact M3.
+  - intro HR. destruct (Jr HR) as [H|[[H|H] H2]].
+    + rewrite (H n Hn) in Hnf. discriminate Hnf.
+    + right. split; [left; apply M1; exact H|]. intro m. apply M2. apply H2.
+    + right. split; [right; exact H|]. intro m. apply M2. apply H2.
+  - unfold closed. rewrite E3, E5. exact Jdd.
+  - intro HR. apply orb_true_iff in HR.
+    assert (Hret : ret s = true) by (destruct HR as [HR|HR]; [apply Jrace; exact HR|exact HR]).
+    split; [exact Hret|].
+    destruct (Jr Hret) as [H|[[H|H] _]].
+    + rewrite (H n Hn) in Hnf. discriminate Hnf.
+    + left. apply M1. exact H.
+    + right. exact H.
+Qed.
+
+Lemma inv_complete_ok g c s n : Inv g c s -> n < size g -> st s n = Running ->
+  Inv g c (complete_ok g s n).
+Proof.
+  intros HI Hn HR.
+  pose proof (fun m => complete_ok_cases g s n m HR) as HC.
+  pose proof (complete_ok_n g s n) as HN.
+  pose proof (complete_ok_parked g s n) as HP.
+  assert (Ecp : cp (complete_ok g s n) = cp s) by reflexivity.
+  assert (Efft : fft (complete_ok g s n) = fft s) by reflexivity.
+  assert (Ectx : ctxc (complete_ok g s n) = ctxc s) by reflexivity.
+  assert (Edead : dead (complete_ok g s n) = dead s) by reflexivity.
+  assert (Eret : ret (complete_ok g s n) = ret s) by reflexivity.
+  assert (Erace : race (complete_ok g s n) = (race s || ret s)) by reflexivity.
+  set (s' := complete_ok g s n) in *. clearbody s'.
+  assert (K1 : forall m y, st s' m = y -> y <> Ok -> y <> Ready -> st s m = y).
+  { intros m y Hy Y1 Y2. destruct (HC m) as [E|[[_ E]|[_ [E _]]]]; congruence. }
+  assert (K2 : forall m, st s m = Ok -> st s' m = Ok).
+  { intros m Hm. destruct (HC m) as [E|[[_ E]|[E _]]]; congruence. }
+  assert (K3 : forall m, st s m = Failed -> st s' m = Failed).
+  { intros m Hm. destruct (HC m) as [E|[[E _]|[E _]]]; congruence. }
+  assert (K4 : forall d, d <> n -> st s d <> Ok -> st s' d <> Ok).
+  { intros d Hd Hno. destruct (HC d) as [E|[[E _]|[_ [E _]]]]; congruence. }
+  destruct HI as [Jd Je Jf Js Jc Ja Jt Jr Jdd Jrace].
+  constructor; rewrite ?Ecp, ?Efft, ?Ectx, ?Edead, ?Eret, ?Erace.
+  - intros m d HA Hd. destruct (HC m) as [E|[[E _]|[_ [_ [_ E]]]]].
+    + rewrite E in HA. apply K2. apply (Jd m d); assumption.
+    + subst m. apply K2. apply (Jd n d); [|exact Hd]. rewrite HR. unfold active. auto.
+    + apply E. exact Hd.
+  - intros EF m Hm. destruct (HP m EF Hm) as [P [Hmn [A|[d [Hd [Hdn Hno]]]]]].
+    + destruct (Je EF m P) as [d [Hd Hno]]. exists d. split; [exact Hd|].
+      apply K4; [|exact Hno]. intro E. subst d. contradiction.
+    + exists d. split; [exact Hd|]. apply K4; assumption.
+  - intros a m HF HRe. apply (Jf a m); [|exact HRe]. apply K1; [exact HF|discriminate|discriminate].
+  - intros m HS. apply Js. apply K1; [exact HS|discriminate|discriminate].
+  - intros m Hm. destruct (Jc m Hm) as [[a [HF HRe]]|H]; [|right; exact H].
+    left. exists a. split; [apply K3; exact HF|exact HRe].
+  - intros m HA. apply (Ja m). apply K1; [exact HA|discriminate|discriminate].
+  - exact Jt.
+  - intro Hret. destruct (Jr Hret) as [H|H]; [|right; exact H].
+    specialize (H n Hn). rewrite HR in H. discriminate H.
+  - unfold closed. rewrite Ectx, Eret. exact Jdd.
+  - intro H. apply orb_true_iff in H.
+    assert (Hret : ret s = true) by (destruct H as [H|H]; [apply Jrace; exact H|exact H]).
+    split; [exact Hret|]. destruct (Jr Hret) as [H1|[H1 _]]; [|exact H1].
+    specialize (H1 n Hn). rewrite HR in H1. discriminate H1.
+Qed.
+
+Lemma inner_cancelled_true s : inner_cancelled s = true <-> fft s = true \/ ctxc s = true.
+Proof. unfold inner_cancelled. apply orb_true_iff. Qed.
+
+Lemma inner_cancelled_false s : inner_cancelled s = false <-> fft s = false /\ ctxc s = false.
+Proof. unfold inner_cancelled. apply orb_false_iff. Qed.
+
+Lemma all_final_spec g s : all_final g s = true <-> forall n, n < size g -> is_final (st s n) = true.
+Proof.
+  unfold all_final. rewrite forallb_forall. split.
+  - intros H n Hn. apply H. apply in_seq. lia.
+  - intros H n Hn. apply in_seq in Hn. apply H. lia.
+Qed.
+
+Lemma inv_step g c s e s' : topo g -> Inv g c s -> step g c s e = Some s' -> Inv g c s'.
+Proof.
+  intros HT HI HS. destruct e as [n|n|n|n|n|n|n|n| | |].
+  - apply step_Start in HS. destruct HS as [Hn [Hst E]]. subst s'.
+    apply inv_point; rewrite ?Hst; try discriminate; auto.
+    intros _. unfold active. auto.
+  - apply step_CancelRecv in HS. destruct HS as [Hn [Hst [Hcp E]]]. subst s'.
+    apply inv_point; auto; try discriminate; try (destruct Hst as [H|H]; rewrite H; discriminate).
+    unfold active. intro H. repeat (destruct H as [H|H]; try discriminate H).
+  - apply step_Pick in HS. destruct HS as [Hn [Hst [_ E]]]. subst s'.
+    apply inv_point; rewrite ?Hst; try discriminate; auto.
+    intros _. unfold active. auto.
+  - apply step_CmdStart in HS. destruct HS as [_ [_ [_ [_ E]]]]. subst s'.
+    destruct HI as [Jd Je Jf Js Jc Ja Jt Jr Jdd Jrace]. constructor; assumption.
+  - apply step_Reject in HS. destruct HS as [Hn [Hst [_ E]]]. subst s'.
+    apply inv_complete_fail; auto.
+  - apply step_FinishOk in HS. destruct HS as [Hn [Hst E]]. subst s'.
+    apply inv_complete_ok; auto.
+  - apply step_FinishFail in HS. destruct HS as [Hn [Hst E]]. subst s'.
+    apply inv_complete_fail; auto.
+  - apply step_FinishCancelled in HS. destruct HS as [Hn [Hst [Hic E]]]. subst s'.
+    apply inner_cancelled_true in Hic.
+    apply inv_point; rewrite ?Hst; try discriminate; auto.
+    intros _. unfold active. auto.
+  - apply step_CtxCancel in HS. destruct HS as [Hc E]. subst s'.
+    destruct HI as [Jd Je Jf Js Jc Ja Jt Jr Jdd Jrace]. constructor; proj.
+    + exact Jd.
+    + exact Je.
+    + exact Jf.
+    + exact Js.
+    + intros n H. right. right. reflexivity.
+    + intros n H. right. reflexivity.
+    + exact Jt.
+    + intro H. destruct (Jr H) as [H1|[_ H1]]; [left; exact H1|right].
+      split; [right; reflexivity|exact H1].
+    + intros _. reflexivity.
+    + intro H. destruct (Jrace H) as [H1 _]. split; [exact H1|right; reflexivity].
+  - apply step_WorkerExit in HS. destruct HS as [Hc [_ E]]. subst s'.
+    destruct HI as [Jd Je Jf Js Jc Ja Jt Jr Jdd Jrace]. constructor; proj.
+    + exact Jd.
+    + exact Je.
+    + exact Jf.
+    + exact Js.
+    + exact Jc.
+    + exact Ja.
+    + exact Jt.
+    + exact Jr.
+    + intros _. exact Hc.
+    + exact Jrace.
+  - apply step_WalkReturn in HS. destruct HS as [Hr [Hor E]]. subst s'.
+    destruct HI as [Jd Je Jf Js Jc Ja Jt Jr Jdd Jrace]. constructor; proj.
+    + exact Jd.
+    + exact Je.
+    + intros a n HF HRe. destruct (inner_cancelled s); [reflexivity|]. eapply Jf; eassumption.
+    + intros n H. destruct (inner_cancelled s); [reflexivity|]. apply Js. exact H.
+    + intros n H. destruct (inner_cancelled s) eqn:E; [|apply Jc; exact H].
+      apply inner_cancelled_true in E. right. exact E.
+    + exact Ja.
+    + intro H. destruct (Jt H) as [H1 H2]. split; [exact H1|].
+      intro n. destruct (inner_cancelled s); [reflexivity|apply H2].
+    + intros _. destruct (inner_cancelled s) eqn:E.
+      * right. apply inner_cancelled_true in E. split; [exact E|reflexivity].
+      * left. destruct Hor as [H|H]; [|discriminate H]. apply all_final_spec. exact H.
+    + intros _. unfold closed. proj. apply orb_true_r.
+    + intro H. destruct (Jrace H) as [H1 _]. rewrite H1 in Hr. discriminate Hr.
+Qed.
+
+Lemma run_from_inv g c evs : topo g -> forall s s', Inv g c s -> run_from g c s evs = Some s' -> Inv g c s'.
+Proof.
+  intro HT. induction evs as [|e r IH]; intros s s' HI HR; simpl in HR.
+  - inversion HR. subst. exact HI.
+  - destruct (step g c s e) as [s1|] eqn:E; [|discriminate HR].
+    eapply IH; [|exact HR]. eapply inv_step; eassumption.
+Qed.
+
+Lemma run_inv g c evs s : topo g -> run g c evs = Some s -> Inv g c s.
+Proof. intros HT H. eapply run_from_inv; [exact HT|apply inv_init|exact H]. Qed.
+
+Lemma reachable_inv g c s : topo g -> reachable g c s -> Inv g c s.
+Proof. intros HT [evs H]. eapply run_inv; eassumption. Qed.
